@@ -9,12 +9,62 @@ import (
 
 // ---------- C07: cancelling the context at any point stops the instance and leaks nothing ----------
 
+// genC07Timers: timer catch events (duration, cycle, date) on a mock clock, waiting in parallel with tasks; the
+// clock may be advanced so that some fire before the cancel, the others are still armed when it comes.
+func genC07Timers(d *Draw) Case {
+	defs := &Definitions{}
+	g := &Graph{ID: "P1", Executable: true}
+	defs.Procs = []*Graph{g}
+	g.addNode(&Node{ID: "Start", Kind: "start"})
+	cur := "Start"
+	if d.Bool() {
+		g.addNode(&Node{ID: "T0", Kind: "task", Results: []string{"r_T0"}})
+		g.connect(defs, cur, "T0", nil, -1)
+		cur = "T0"
+	}
+	g.addNode(&Node{ID: "F", Kind: "and"})
+	g.connect(defs, cur, "F", nil, -1)
+	nt := 1 + d.N(2)
+	specs := []string{"D:PT10S", "D:PT1H", "C:R2/PT20S", "C:R/PT30S", "T:1970-01-01T00:01:00Z"}
+	var used []string
+	for i := 1; i <= nt; i++ {
+		sp := specs[d.N(len(specs))]
+		used = append(used, sp)
+		ct := g.addNode(&Node{ID: fmt.Sprintf("CT%d", i), Kind: "catch", Relaxed: true, Events: []EventDef{{Kind: "timer", Timer: sp}}})
+		t := g.addNode(&Node{ID: fmt.Sprintf("T%d", i), Kind: "task", Results: []string{fmt.Sprintf("r_T%d", i)}})
+		e := g.addNode(&Node{ID: fmt.Sprintf("E%d", i), Kind: "end"})
+		g.connect(defs, "F", ct.ID, nil, -1)
+		g.connect(defs, ct.ID, t.ID, nil, -1)
+		g.connect(defs, t.ID, e.ID, nil, -1)
+	}
+	if d.Bool() {
+		g.addNode(&Node{ID: "TP", Kind: "task", Results: []string{"r_TP"}})
+		g.addNode(&Node{ID: "EP", Kind: "end"})
+		g.connect(defs, "F", "TP", nil, -1)
+		g.connect(defs, "TP", "EP", nil, -1)
+	}
+	g.index()
+	c := &ProcCase{Buf: d.N(17), Hold: d.N(3), MockTimers: true}
+	jumps := []string{"5s", "10s", "25s", "61s", "2h"}
+	var evd []string
+	for i, n := 0, d.N(4); i < n; i++ {
+		j := jumps[d.N(len(jumps))]
+		c.Events = append(c.Events, EvPlan{Kind: "clock", Ref: j})
+		evd = append(evd, "+"+j)
+	}
+	c.Prog = &Program{Defs: defs, Vars: map[string]any{}, Tags: []string{"timers"}, Desc: fmt.Sprintf("timer catch events %v in parallel, clock jumps %v", used, evd)}
+	c.Picks = drawPicks(d, 32)
+	return c
+}
+
 func genC07(d *Draw) Case {
 	// node kinds beyond tasks and gateways: listening catch events, an armed event-based gateway, boundary
 	// listeners; the cancellation lands while they wait (or after some of their events arrived)
-	if fam := d.N(5); fam >= 2 {
+	if fam := d.N(6); fam >= 2 {
 		var inner Case
 		switch fam {
+		case 5:
+			inner = genC07Timers(d)
 		case 2:
 			inner = genC11(d)
 		case 3:
